@@ -7,7 +7,11 @@ strings, item / base-sequence lists, complement links and object sharing checked
 the names and lengths in the snapshot vs the .pil written by the same compile; finishing from the reloaded
 file (subprocess) vs applying the design to the in-memory system.  Histories: 0-5 earlier compiles in the
 saving process (they advance the global anonymous counter); in 40 % of the runs one of them left an out.pil / out.save of
-ANOTHER program at the same output names (recompile over existing files)."""
+ANOTHER program at the same output names (recompile over existing files).
+
+Section `[pickle model]` (class PickleTie below): the same programs' REAL out.save bytes run through the Lean unpickler, the in-memory and
+the reloaded object graphs walked by id() (harness/pickleio.py) and canonised by the Lean `canon`, the Lean pickler compared with the real
+opcode list, plus directed Python objects for the opcodes and batch boundaries .save files do not reach."""
 import json
 import os
 import pickle
@@ -25,8 +29,15 @@ import snapshot as snapmod
 import pickleio
 
 LEVEL = "proof"
-LEVEL_NOTE = ("PARTIAL: that pickle.load(pickle.dump(x)) reproduces the object graph in another process is Python-runtime behaviour no Lean "
-              "model expresses; it is validated by the three-way snapshot comparison, not proved")
+LEVEL_NOTE = ("PARTIAL: pickle is modelled in Lean (PepperModel/Pickle.lean: unpickler VM, abstract pickler, canonical form of a rooted heap) and tied to "
+              "CPython on every run: real .save bytes through the Lean VM, in-memory graph and the graph reloaded in a fresh process walked by id() and "
+              "canonised by the Lean `canon`, Lean `dump` = real opcode list. PROVED (PepperProps/C16Pickle.lean): equal canonical forms => isomorphic "
+              "graphs incl. sharing and cycles; unpickler frame/identity/freshness lemmas; round trip for atoms and strings in any heap, and the full "
+              "isomorphism conclusion for each heap on which the evaluated check `roundtripB` is true (evaluated on every in-memory heap of every run). "
+              "NOT PROVED: the round trip for all heaps (containers, sharing, cycles); converse of canon_iso. NOT MODELLED: the C `_pickle` itself (only "
+              "compared per run), find_class / import in the fresh process, what cls.__new__ / reduce callables return, sys.intern of attribute names, "
+              "__setstate__ (none occurs; reported if one appears), BINFLOAT payload (opaque 8 bytes); decoded heap -> snapshot is read by the harness, "
+              "not in Lean. String identity is part of the compared graphs (the pickler preserves it)")
 
 
 def replay(path):
